@@ -7,6 +7,7 @@ import (
 	"math/rand"
 	"sort"
 	"sync"
+	"time"
 
 	"github.com/honeycombio/refinery/config"
 	"github.com/honeycombio/refinery/logger"
@@ -22,13 +23,15 @@ import (
 // clear and the factory's peer count (verif hooks).
 
 type c13Op struct {
-	Op    string   `json:"op"`              // create | clear | peers
+	Op    string   `json:"op"`              // create | clear | peers | create_race
 	Down  bool     `json:"down,omitempty"`  // create: downstream sampler of a rules sampler
 	Name  string   `json:"name,omitempty"`  // create: sampler key (environment / dataset)
 	Def   *sampDef `json:"def,omitempty"`   // create
 	Peers int      `json:"peers,omitempty"` // peers: number of peers GetPeers returns from now on
 	Err   bool     `json:"err,omitempty"`   // peers: GetPeers fails from now on
 	Fire  bool     `json:"fire,omitempty"`  // peers: the registered callback runs
+	// create_race: a creation during which the membership changes to Peers / Err and the callback is
+	// delivered while the creation is inside GetPeers (see c13Peers.GetPeers)
 }
 type c13Input struct {
 	Ops []c13Op `json:"ops"`
@@ -44,19 +47,62 @@ type c13Peers struct {
 	n         int
 	err       bool
 	callbacks []func()
+	// one-shot: during the next GetPeers call the membership changes to (raceN, raceErr) and the
+	// notification is delivered on another goroutine; the call itself still answers with the OLD
+	// membership (it started before the change). raceDone is closed when the notification's
+	// callbacks have returned.
+	race     bool
+	raceN    int
+	raceErr  bool
+	raceDone chan struct{}
+	// whether the notification completed while GetPeers was still being held (i.e. it did not have
+	// to wait for the caller of GetPeers): recorded for the evidence only
+	raceOvertook bool
 }
 
-func (p *c13Peers) GetPeers() ([]string, error) {
-	p.mu.Lock()
-	defer p.mu.Unlock()
-	if p.err {
+func (p *c13Peers) answer(n int, err bool) ([]string, error) {
+	if err {
 		return nil, errors.New("peer lookup failed")
 	}
-	out := make([]string, p.n)
+	out := make([]string, n)
 	for i := range out {
 		out[i] = fmt.Sprintf("http://peer%d:8081", i)
 	}
 	return out, nil
+}
+
+func (p *c13Peers) GetPeers() ([]string, error) {
+	p.mu.Lock()
+	if !p.race {
+		n, e := p.n, p.err
+		p.mu.Unlock()
+		return p.answer(n, e)
+	}
+	// the racing call: answer with the old membership, but first let the change and its
+	// notification happen
+	p.race = false
+	oldN, oldErr := p.n, p.err
+	p.n, p.err = p.raceN, p.raceErr
+	cbs := append([]func(){}, p.callbacks...)
+	done := make(chan struct{})
+	p.raceDone = done
+	p.mu.Unlock()
+	go func() {
+		for _, cb := range cbs {
+			cb()
+		}
+		close(done)
+	}()
+	// If the caller holds the factory lock (as the source does), the notification cannot finish
+	// before we return; give it a moment to show whether it can.
+	select {
+	case <-done:
+		p.mu.Lock()
+		p.raceOvertook = true
+		p.mu.Unlock()
+	case <-time.After(30 * time.Millisecond):
+	}
+	return p.answer(oldN, oldErr)
 }
 func (p *c13Peers) GetInstanceID() (string, error) { return "http://peer0:8081", nil }
 func (p *c13Peers) RegisterUpdatedPeersCallback(cb func()) {
@@ -112,6 +158,13 @@ func c13Gen(r *rand.Rand, tier string, i int) any {
 	}
 	for k := 0; k < nops; k++ {
 		switch x := r.Intn(100); {
+		case x < 8 && i%3 == 0: // a creation racing with a membership change (at most a few per case: each waits 30 ms)
+			d := pool[r.Intn(len(pool))]
+			o := c13Op{Op: "create_race", Down: r.Intn(2) == 0, Name: names[r.Intn(len(names))], Def: &d, Peers: peerCounts[r.Intn(len(peerCounts))]}
+			if r.Intn(10) == 0 {
+				o.Err = true
+			}
+			in.Ops = append(in.Ops, o)
 		case x < 45:
 			d := pool[r.Intn(len(pool))]
 			in.Ops = append(in.Ops, c13Op{Op: "create", Down: r.Intn(2) == 0, Name: names[r.Intn(len(names))], Def: &d})
@@ -173,17 +226,22 @@ func c13Run(raw json.RawMessage) (Case, error) {
 	}
 	var alive []live
 	var ops, obs, human, tags []string
-	sawUCS, sawPlain, sawChange := false, false, false
+	sawUCS, sawPlain, sawChange, sawRace := false, false, false, false
 	for _, o := range in.Ops {
 		created := "None"
 		switch o.Op {
-		case "create":
+		case "create", "create_race":
 			if o.Def == nil {
 				return Case{}, fmt.Errorf("create without def")
 			}
 			ch, ds, err := c13Choice(*o.Def)
 			if err != nil {
 				return Case{}, err
+			}
+			if o.Op == "create_race" {
+				peers.mu.Lock()
+				peers.race, peers.raceN, peers.raceErr, peers.raceDone = true, o.Peers, o.Err, nil
+				peers.mu.Unlock()
 			}
 			var s sample.Sampler
 			if o.Down {
@@ -221,7 +279,31 @@ func c13Run(raw json.RawMessage) (Case, error) {
 			if o.Down {
 				sc = "Down"
 			}
-			ops = append(ops, fmt.Sprintf("(FCreate %s %s %s)", sc, c11Str(o.Name), dc))
+			if o.Op == "create_race" {
+				// wait for the notification that was delivered during the creation
+				peers.mu.Lock()
+				done, armed := peers.raceDone, peers.race
+				peers.mu.Unlock()
+				if armed || done == nil {
+					return Case{}, fmt.Errorf("the creation did not call GetPeers")
+				}
+				select {
+				case <-done:
+				case <-time.After(20 * time.Second):
+					return Case{}, fmt.Errorf("the notification delivered during a creation never returned")
+				}
+				src := cq.Some(cq.Z(int64(o.Peers)))
+				if o.Err {
+					src = "None"
+				}
+				ops = append(ops, fmt.Sprintf("(FCreateRace %s %s %s %s)", sc, c11Str(o.Name), dc, src))
+				sawRace = true
+				if !o.Err && o.Peers > 1 {
+					sawChange = true
+				}
+			} else {
+				ops = append(ops, fmt.Sprintf("(FCreate %s %s %s)", sc, c11Str(o.Name), dc))
+			}
 			if o.Def.Type >= 5 {
 				if o.Def.P["UseClusterSize"] != 0 {
 					sawUCS = true
@@ -276,6 +358,9 @@ func c13Run(raw json.RawMessage) (Case, error) {
 	}
 	if sawChange {
 		tags = append(tags, "membership-change")
+	}
+	if sawRace {
+		tags = append(tags, "creation-racing-with-membership-change")
 	}
 	coq := fmt.Sprintf("(Build_case %s %s)", cq.List(ops), cq.List(obs))
 	b, _ := json.Marshal(in)
